@@ -4,6 +4,7 @@ package simnet
 
 import (
 	"fmt"
+	abci "github.com/cometbft/cometbft/abci/types"
 	"math/big"
 	"strings"
 
@@ -328,8 +329,9 @@ type monC07 struct {
 	pre string
 }
 
-func (m *monC07) Name() string { return "C07" }
-func (m *monC07) Init(w *World) { w.armedShadow = w.armedShadow || w.PropOverride == "C07" }
+func (m *monC07) AfterEnd(w *World, _ abci.ResponseEndBlock) { govExecutedMustFail(w, "C07", c07Rules) }
+func (m *monC07) Name() string                               { return "C07" }
+func (m *monC07) Init(w *World)                              { w.armedShadow = w.armedShadow || w.PropOverride == "C07" }
 
 var c07Rules = map[string]bool{"wrk.record/height-not-above-last": true, "wrk.record/unknown-id": true, "wrk.record/not-owner": true, "bcn.record/unknown-id": true, "bcn.record/not-owner": true}
 
@@ -427,7 +429,8 @@ func (m *monC07) checkReg(w *World, ctx sdk.Context, v regView, id uint64, where
 
 type monC08 struct{ BaseMonitor }
 
-func (m *monC08) Name() string { return "C08" }
+func (m *monC08) AfterEnd(w *World, _ abci.ResponseEndBlock) { govExecutedMustFail(w, "C08", c08Rules) }
+func (m *monC08) Name() string                               { return "C08" }
 func (m *monC08) Init(w *World) {
 	// under the C08 check proper, exports are also imported and the counters re-checked there
 	w.armedC08 = w.PropOverride == "C08" || w.PropOverride == "C18"
@@ -569,7 +572,8 @@ type monC09 struct {
 	pre  string
 }
 
-func (m *monC09) Name() string  { return "C09" }
+func (m *monC09) AfterEnd(w *World, _ abci.ResponseEndBlock) { govExecutedMustFail(w, "C09", c09Rules) }
+func (m *monC09) Name() string                               { return "C09" }
 func (m *monC09) Init(w *World) {
 	m.meta = map[string]string{}
 	w.armedShadow = w.armedShadow || w.PropOverride == "C09"
